@@ -17,7 +17,7 @@ META = {
             'the range of the type is read back as that number, and its decimal text identifies it.  The model is the one extracted and compared byte for byte with the real '
             'JsonFormatter on generated messages; the source-derived constants are re-read on every run.',
     'note': 'Trusted: Coq 8.16.1 kernel (vm_compute only for the closed configuration check), no axioms; tools/s2c/json.py (regex translation of '
-            'logmessage.h allAttributes()/qtMsgTypeToString and jsonformatter.cpp), extraction (ExtrOcamlBasic only), ocaml/drv_json.ml, '
+            'logmessage.h allAttributes()/qtMsgTypeToString, jsonformatter.cpp and the front ends SimplePipeline::formatToJson / JsonFormatter::instance()), extraction (ExtrOcamlBasic only), ocaml/drv_json.ml, '
             'harness/h_json.cpp, Python json (independent parser).  Modelled, not verified: QJsonDocument::toJson, QJsonValue::fromVariant, '
             'QJsonObject key order, QVariantHash (tied by the byte-exact comparison only).  Outside: non-integral doubles, QDateTime rendering '
             '(the time string and the thread id are read back from the message and given to the model), UTF-8 transcoding of the result.',
